@@ -977,6 +977,11 @@ def _judge_tree(case):
                 try:
                     d = res.unwrap()
                 except Exception as e:  # noqa
+                    if nm[0] != "<start>" or rt.is_open(nm):
+                        # the CLI takes a JSON input as a derivation tree only if it is closed and rooted in
+                        # <start> (what `isla parse` emits); anything else is parsed as a plain string
+                        labels.add("cliread_not_a_start_rooted_closed_tree")
+                        continue
                     if graph is not None and _quiet_valid(graph, rt.to_dt(nm)):
                         bad("tree:cliread:not_read_back", result=repr(res)[:200])
                         break
